@@ -82,6 +82,14 @@ PROPS["C10"] = {
         {"pkg": "consensus", "gen": CONS_GEN, "run": "^VH_C10_DEC_", "skip": "_(ElementAccumulator|State)$",
          "params": {"quick": {"N": 40, "alloc_limit": 255, "lazy_make": 1}, "thorough": {"N": 64, "alloc_limit": 255, "lazy_make": 1}},
          "flags": {"quick": ["-maxlen", "256", "-maxpaths", "200000"], "thorough": ["-maxlen", "256", "-maxpaths", "400000"]}},
+        {"pkg": "types", "harness": ["harness/c10/c10_multiproof.go"], "run": "^VH_C10_MultiproofDecode$",
+         "params": {"quick": {"maxtxns": 1, "maxleaves": 8, "maxhashes": 4}, "thorough": {"maxtxns": 2, "maxleaves": 8, "maxhashes": 4}},
+         "flags": {"quick": ["-timeout", "3000", "-maxpaths", "200000"], "thorough": ["-timeout", "5000", "-maxpaths", "1000000"]},
+         "must_reach": {"VH_C10_MultiproofDecode": ["accepted", "rejected"]}},
+        {"pkg": "consensus", "harness": C10_VH, "run": "^VH_C10_V2BlockEphemeral$",
+         "params": {"quick": {"weight_uf": 1, "v1cur_fixed": 1, "tax_uf": 1, "spidx_uf": 1, "cflen": 1, "int_mode": 1, "cur_lift": 1}, "thorough": {"ephfull": 1, "weight_uf": 1, "v1cur_fixed": 1, "tax_uf": 1, "spidx_uf": 1, "cflen": 1, "int_mode": 1, "cur_lift": 1}},
+         "flags": {"quick": ["-timeout", "1000", "-maxpaths", "100000"], "thorough": ["-timeout", "1000", "-maxpaths", "400000"]},
+         "must_reach": {"VH_C10_V2BlockEphemeral": ["first-applied", "second-rejected", "second-accepted", "second-applied"]}},
         {"pkg": "consensus", "harness": C10_VH, "run": "^VH_C10_ValidateV1$", "params": {"quick": {"mask": 643, "weight_uf": 1, "v1cur_fixed": 1, "tax_uf": 1, "spidx_uf": 1, "cflen": 1, "int_mode": 1, "cur_lift": 1}, "thorough": {"mask": 643, "weight_uf": 1, "v1cur_fixed": 1, "tax_uf": 1, "spidx_uf": 1, "cflen": 1, "int_mode": 1, "cur_lift": 1}},
          "flags": {"quick": ["-timeout", "1000", "-maxpaths", "100000"], "thorough": ["-timeout", "1000", "-maxpaths", "400000"]},
          "must_reach": {"VH_C10_ValidateV1": ["rejected", "accepted", "applied"]}},
@@ -129,9 +137,9 @@ PROPS["C10"] = {
          "must_reach": {"VH_C10_ValidateV2": ["rejected"]}, "thorough_only": True},
     ],
     "tv_runs": {"quick": 0, "thorough": 0},
-    "bounds": {"quick": "validators: transaction shapes with the component groups listed in evidence.coverage.runs (1 element per populated component; v1 masks 643/519/769/16, v2 masks 3/12/16/32/128/769), fully symbolic contents, state, network parameters and supplement; decoders: arbitrary input of N bytes, N=40 (policy-bearing objects 20, v1 Transaction/V1Block 100, V2Transaction 24); every loop unwound to completion (path/loop budgets are unwinding assertions); allocation per site <= max(N,255) elements",
-               "thorough": "N=64 / 26 / 140 / 40"},
-    "outside": ["inputs longer than N", "JSON/text Unmarshal entry points (see C20)"],
+    "bounds": {"quick": "validators: transaction shapes with the component groups listed in evidence.coverage.runs (1 element per populated component; v1 masks 643/519/769/16, v2 masks 3/12/16/32/128/769), fully symbolic contents, state, network parameters and supplement; decoders: arbitrary input of N bytes, N=40 (policy-bearing objects 20, v1 Transaction/V1Block 100, V2Transaction 24); every loop unwound to completion (path/loop budgets are unwinding assertions); allocation per site <= max(N,255) elements; multiproof block body: the real wire form of 1 v2 transaction (1 siacoin input, optional contract revision, arbitrary 64-bit leaf indices) + arbitrary leaf count < 8 + 0..3 arbitrary proof hashes decodes without panic; two v2 transactions of one block where the second spends an ephemeral siacoin parent with an arbitrary ID (incl. the ID of an attestation or output created by the first), both eras of the ephemeral-output fork: no panic in validation or application",
+               "thorough": "N=64 / 26 / 140 / 40; multiproof with 2 transactions; ephemeral siafund parents and contract-creating first transactions"},
+    "outside": ["inputs longer than N", "JSON/text Unmarshal entry points (hex text forms: see C20)", "multiproofs with more than 2 transactions or leaf counts >= 8, arbitrary bytes fed to the V2Block/multiproof decoders (the transaction part is a real encoding with symbolic field values)"],
     "stubs": ["fmt.Errorf/Sprintf: opaque values (formatting code not executed)"],
     "assumptions": COMMON_ASSUME,
 }
@@ -257,6 +265,10 @@ SEQ_REACH = {
     "VH_SEQ_MinerPayouts": ["accepted"],
     "VH_SEQ_V1SigTimelock": ["accepted", "accepted-at-sig-bound", "accepted-at-uc-bound"],
 }
+# tags whose reachability is part of the property (rules flip exactly at their bounds): not reached => violation
+SEQ_ACCEPT = {"revised-at-proof-height", "new-proof-height-at-bound", "minimal-window", "revision-number-plus-one", "missed-host-value-kept", "proof-at-bound", "expiry-at-bound",
+              "accepted-at-bound", "accepted-at-maturity", "v1-last-height", "v1-at-maturity", "v2-first-height", "window-starts-now", "timelock-at-bound", "revised-at-window-start",
+              "accepted-at-sig-bound", "accepted-at-uc-bound"}
 SEQ_V1 = ["VH_SEQ_V1FormContract", "VH_SEQ_V1Revision", "VH_SEQ_V1SiafundClaim", "VH_SEQ_V1Resolution", "VH_SEQ_V1SameTxnDouble", "VH_SEQ_V1MultisigDistinctKeys",
           "VH_SEQ_V1ProofAndExpirySameBlock", "VH_SEQ_MinerPayouts", "VH_SEQ_V1SigTimelock"]
 SEQ_H1 = ["harness/cons/v1seq.go", "harness/common/cons_world.go", "harness/common/cons_support.go"]
@@ -275,7 +287,7 @@ def seq_check(names, extra=None, flagsq=None):
             p["nkeys"] = 0
         runs.append({"pkg": "consensus", "harness": SEQ_H1 if nm in SEQ_V1 else SEQ_H, "run": "^%s$" % nm, "params": {"quick": p, "thorough": p},
                      "flags": {"quick": ["-timeout", "1000", "-maxpaths", "200000"], "thorough": ["-timeout", "1000", "-maxpaths", "400000"]},
-                     "must_reach": {nm: SEQ_REACH[nm]}})
+                     "must_reach": {nm: [t for t in SEQ_REACH[nm] if t not in SEQ_ACCEPT]}, "must_accept": {nm: [t for t in SEQ_REACH[nm] if t in SEQ_ACCEPT]}})
     return runs
 
 
